@@ -360,7 +360,12 @@ func runC11SecondHost(r *h.Run) {
 	ob.Val.(plugins.Cmd).Do("stdout", hex.EncodeToString([]byte("seen by B\n")))
 	wantOut := append(append([]byte(nil), dOut...), []byte("seen by B\n")...)
 	for waited := time.Duration(0); waited < 20*time.Second; waited += 200 * time.Millisecond {
-		if len(soB.Bytes()) >= len(wantOut) && len(seB.Bytes()) >= len(dErr) && written.Load() {
+		if aStalled {
+			// (host A's leftovers come first: wait for the end of what is expected)
+			if bytes.HasSuffix(soB.Bytes(), wantOut) && len(seB.Bytes()) >= len(dErr) && written.Load() {
+				break
+			}
+		} else if len(soB.Bytes()) >= len(wantOut) && len(seB.Bytes()) >= len(dErr) && written.Load() {
 			break
 		}
 		time.Sleep(200 * time.Millisecond)
